@@ -7,6 +7,7 @@ import Bt.Driver.Select
 import Bt.Driver.Stack
 import Bt.Driver.Sched
 import Bt.Driver.Program
+import Bt.Driver.Blotter
 /- The driver: one request per line on stdin, one answer per line on stdout. -/
 open Bt.Driver
 
@@ -25,6 +26,7 @@ def dispatch (line : String) : String :=
   | "report" :: _ => handleReport (l.drop 7).toString
   | "risk" :: _ => handleRisk (l.drop 5).toString
   | "wiring" :: _ => handleWiring (l.drop 7).toString
+  | "blotter" :: _ => handleBlotter (l.drop 8).toString
   | _ => "bad unknown-request"
 
 partial def loop (h : IO.FS.Stream) (out : IO.FS.Stream) : IO Unit := do
